@@ -23,7 +23,11 @@ then recovery is run a second time (once without and once with another crash)
 and the keys are read again.
 
 Oracle (each clause = a phrase of the statement):
-  * durable(op)  :=  seq(op) <= wal.synced_up_to read at the crash point
+  * durable(op)  :=  seq(op) <= wal.synced_up_to read at the crash point, OR the
+    call has returned and the sync policy's documented contract makes a returned
+    call a synced one (SyncEveryWrite: every returned put/delete; SyncOnBatch(n)
+    with one writer: ops 1..j once the j-th call, j multiple of n, returned;
+    SyncPeriodic: watermark only)
     ("write whose write-ahead-log sync had completed before the crash");
     seq(op) = order in which the harness's processes began their put/delete
     calls (= log append order; cross-checked against the public
@@ -253,16 +257,49 @@ def view_at(ops0, k):
     return out
 
 
-def allowed_values(ops, synced, key):
+BATCH_N = 2  # batch size of the "batch2" policy (mk_policy)
+
+
+def durable_seqs(ops, synced, policy, nwriters):
+    """Sequence numbers of the begun ops whose write-ahead-log sync had completed at the crash point.
+
+    (1) the log's own watermark: seq <= wal.synced_up_to (every policy);
+    (2) acknowledgement, where the policy's documented contract makes a returned call imply a completed sync:
+        * SyncEveryWrite ("sync after every write"; should_sync is always True, append() only returns after
+          the fsync latency): every put/delete that has RETURNED is durable, whatever the watermark says;
+        * SyncOnBatch(n) ("sync after N accumulated writes"), single writer only (with concurrent writers
+          which append closes a batch is not defined by the contract): when the writer's j-th call has
+          returned and j is a multiple of n, that call's append closed a batch and fsynced it, so ops 1..j
+          are durable;
+        * SyncPeriodic: a returned call promises nothing; watermark only.
+    """
+    dur = {o["seq"] for o in ops if o["seq"] <= synced}
+    if policy == "every":
+        dur |= {o["seq"] for o in ops if o["done"]}
+    elif policy == "batch2" and nwriters == 1:
+        closed = [o["seq"] for o in ops if o["done"] and o["seq"] % BATCH_N == 0]
+        if closed:
+            dur |= {o["seq"] for o in ops if o["seq"] <= max(closed)}
+    return dur
+
+
+def allowed_values(ops, dur, key):
     """Values key may hold after recovery: the last op on key of some linearisation (consistent with
     the real-time order of the calls) of all durable ops plus any subset of the other begun ops.
-    Returns (allowed set, durable ops on key).  None = absent."""
+    ``dur`` = durable_seqs(...).  Returns (allowed set, durable ops on key).  None = absent."""
     on_key = [o for o in ops if o["key"] == key]
-    durable = [o for o in on_key if o["seq"] <= synced]
+    durable = [o for o in on_key if o["seq"] in dur]
     allowed = {o["value"] for o in on_key if not any(rt_before(o, d) for d in durable)}
     if not durable:
         allowed.add(None)
     return allowed, durable
+
+
+def _why(d, synced):
+    if d["seq"] <= synced:
+        return f"wal.synced_up_to={synced} at the crash point"
+    return (f"its call had returned before the crash and the sync policy's contract makes a returned call a "
+            f"synced one, yet wal.synced_up_to={synced} < {d['seq']} and crash() discarded its log entry")
 
 
 def classify(ops, res):
@@ -271,7 +308,7 @@ def classify(ops, res):
     synced = res["synced"]
     for ki, key in enumerate(KEYS):
         got = res["img1"][ki]
-        allowed, durable = allowed_values(ops, synced, key)
+        allowed, durable = allowed_values(ops, res["dur"], key)
         if got in allowed:
             continue
         on_key = [o for o in ops if o["key"] == key]
@@ -283,16 +320,16 @@ def classify(ops, res):
             x = [o for o in on_key if o["value"] == got][0]
             d = max((dd for dd in durable if rt_before(x, dd)), key=lambda o: o["seq"])
             what = "deleted" if d["kind"] == "del" else "overwritten"
-            out.append(("resurrected", key, got, d,
+            out.append(("resurrected" if d["seq"] <= synced else "resurrected-over-acknowledged", key, got, d,
                         f"after crash+recovery key {key!r} reads {got!r} (op seq={x['seq']}, returned before op "
                         f"seq={d['seq']} began) although op seq={d['seq']} ({d['kind']} {key}), which {what} it, was "
-                        f"durable: wal.synced_up_to={synced} at the crash point"))
+                        f"durable: {_why(d, synced)}"))
         else:
             # absent, although every way of ending absent is ruled out by a durable put
             d = max((dd for dd in durable if dd["kind"] == "put"), key=lambda o: o["seq"])
-            out.append(("lost-durable", key, got, d,
+            out.append(("lost-durable" if d["seq"] <= synced else "lost-acknowledged", key, got, d,
                         f"after crash+recovery key {key!r} is absent although op seq={d['seq']} "
-                        f"(put {key}={d['value']!r}) was durable: wal.synced_up_to={synced} at the crash point"))
+                        f"(put {key}={d['value']!r}) was durable: {_why(d, synced)}"))
     if res["img1b"] != res["img1"]:
         out.append(("recover-not-idempotent/second-recover-without-crash", None, None, None,
                     f"image after recover_from_crash() = {res['img1']}, after calling it again = {res['img1b']}"))
@@ -302,7 +339,7 @@ def classify(ops, res):
     return out
 
 
-def shape_of(c, k, d, key, pre_img, ops, synced):
+def shape_of(c, k, d, key, pre_img, ops, dur):
     """Shape class of the witness, for the fingerprint (attribution only; never decides a verdict).
       live-state-already-wrong : a get_sync BEFORE crash() already returned a value outside the allowed
                                  set, at a crash point with no flush suspended or after >= 2 completed
@@ -322,7 +359,7 @@ def shape_of(c, k, d, key, pre_img, ops, synced):
     ncomp = (c.samples[k - 1][2] if k > 0 else 0) or 0
     if pre_img is not None and (act == 0 or (ncomp >= 2 and d["done"])):
         # reads are reliable (no flush suspended), or d had returned and two compactions already completed
-        allowed, _ = allowed_values(ops, synced, key)
+        allowed, _ = allowed_values(ops, dur, key)
         if pre_img[KEYS.index(key)] not in allowed:
             return "live-state-already-wrong"
     if ncomp >= 2 and d["done"]:
@@ -355,12 +392,13 @@ def diagnose(policy, cfg, writers, k):
     synced0 = c.wal.synced_up_to
     pre = image(c.lsm)
     res = crash_and_recover(c)
+    res["dur"] = durable_seqs(ops, res["synced"], policy, len(writers))
     out = []
     for clause, key, _got, d, desc in classify(ops, res):
         if d is None:
             fp = f"LSMTree/{clause}" if "/" in clause else f"LSMTree/{clause}/any"
         else:
-            fp = f"LSMTree/{clause}/{shape_of(c, k, d, key, pre, ops, synced0)}"
+            fp = f"LSMTree/{clause}/{shape_of(c, k, d, key, pre, ops, res['dur'])}"
         out.append((fp, desc))
     return out, c, res, ops, pre
 
@@ -399,13 +437,16 @@ def explore_workload(policy, cfg, writers, stats):
         act = c0.samples[k - 1][0] if k > 0 else 0
         res = crash_and_recover(c)
         synced = res["synced"]
-        ndur = sum(1 for o in ops if o["seq"] <= synced)
+        dur = res["dur"] = durable_seqs(ops, synced, policy, len(writers))
+        ndur = len(dur)
+        if any(q > synced for q in dur):
+            stats["ack_above_watermark"] += 1
         stats["states"].add(digest((policy, cfg, tuple((o["kind"], o["key"], o["done"]) for o in ops),
                                     synced, res["info"]["wal_size_before"],
                                     c0.samples[k - 1][1:3] if k > 0 else None, res["img1"])))
         cls = []
         for ki, key in enumerate(KEYS):
-            allowed, durable = allowed_values(ops, synced, key)
+            allowed, durable = allowed_values(ops, dur, key)
             got = res["img1"][ki]
             if got not in allowed:
                 cls.append("BAD")
@@ -448,7 +489,7 @@ def explore_workload(policy, cfg, writers, stats):
 def new_stats():
     return {"exec": 0, "trans": 0, "nontriv": 0, "states": set(), "outcomes": set(), "viol": {},
             "viol_count": {}, "samples": [], "horizon": 0, "crash_in_flush": 0, "overlap_workloads": 0,
-            "workloads": 0, "with_compaction": 0}
+            "workloads": 0, "with_compaction": 0, "ack_above_watermark": 0}
 
 
 # ---------------------------------------------------------------------------
@@ -551,7 +592,8 @@ def run_driver(run, name, policy, cfgs, max_ops, ties, seed, keysym=False):
     jobs = rotate(jobs, seed)
     states, outcomes = set(), set()
     extra = {"workloads": 0, "crash_points_with_flush_suspended": 0, "workloads_with_op_begun_during_flush": 0,
-             "workloads_with_compaction": 0, "horizon_runs": 0}
+             "workloads_with_compaction": 0, "horizon_runs": 0,
+             "crash_points_with_acknowledged_op_above_watermark": 0}
     for st in pmap(_work, jobs, ordered=False):
         d.executions += st["exec"]
         d.transitions += st["trans"]
@@ -563,6 +605,7 @@ def run_driver(run, name, policy, cfgs, max_ops, ties, seed, keysym=False):
         extra["workloads_with_op_begun_during_flush"] += st["overlap_workloads"]
         extra["horizon_runs"] += st["horizon"]
         extra["workloads_with_compaction"] += st["with_compaction"]
+        extra["crash_points_with_acknowledged_op_above_watermark"] += st["ack_above_watermark"]
         if "seqnote" in st:
             run.notes.append(f"{name}: begin order != wal.stats.writes+1 at some op: {st['seqnote']}")
         for fp, (desc, rep, size) in st["viol"].items():
@@ -603,7 +646,9 @@ def main(tier, seed, only=None):
                     "synced_up_to, wal.size, stats counters, recovered image); non-trivial = crash points at which at "
                     "least one operation was durable (seq <= synced_up_to) AND at least one put/delete was suspended "
                     "mid-flight (in its log write/sync, memtable insert, flush or compaction)"),
-              assumptions=["durable(op) := begin-order index of op <= wal.synced_up_to at the crash point; begin order "
+              assumptions=["durable(op) := begin-order index of op <= wal.synced_up_to at the crash point, or the call "
+                           "returned under a policy whose contract makes return imply sync (SyncEveryWrite; "
+                           "SyncOnBatch(n) for the j-th call of a single writer, j multiple of n); begin order "
                            "= log append order (cross-checked with wal.stats.writes)",
                            "operations on one key are ordered by log sequence (= begin order); with the library's "
                            "constant latencies memtable application order equals log order",
@@ -657,7 +702,7 @@ def replay(data):
     print(f"  image after recover again         : {dict(zip(KEYS, res['img1b']))}")
     print(f"  image after second crash+recover  : {dict(zip(KEYS, res['img2']))}")
     for key in KEYS:
-        allowed, durable = allowed_values(ops, res["synced"], key)
+        allowed, durable = allowed_values(ops, res["dur"], key)
         print(f"  key {key!r}: durable ops = {[o['seq'] for o in durable]}; allowed after recovery = {sorted(allowed, key=repr)}")
     for fp, desc in fps:
         print(f"  !! {fp}: {desc}")
